@@ -13,61 +13,15 @@ DFKNTsize(int32 number_type)
     return g_csize;
 }
 
-/* ---- "proved" variant: xdim, ncomp and the component size are constants of the run (GRP_XD, GRP_NC,
-   GRP_CS), ydim is symbolic (1..GRP_YMAX); the row loop of GRIil_convert runs under the loop contract
-   of loops/mfgr.loops, the inner loops (constant trip counts) are unwound.  The macros below are
-   the text of that loop invariant. ---- */
-#ifndef GRP_NC
-#define GRP_NC 2
-#endif
-#ifndef GRP_CS
-#define GRP_CS 1
-#endif
-#ifndef GRP_XD
-#define GRP_XD 2
-#endif
-#define GRP_YMAX 1000000
-/* c * ydim without a symbolic product (c < 3) */
-#define GRP_CY(c, yd) ((c) == 0 ? 0L : (c) == 1 ? (long)(yd) : 2L * (long)(yd))
-#define GRP_IDX(il, x, y, c, yd)                                                                     \
-    ((il) == MFGR_INTERLACE_PIXEL  ? (((long)(y)*GRP_XD + (x)) * GRP_NC + (c))                         \
-     : (il) == MFGR_INTERLACE_LINE ? (((long)(y)*GRP_NC + (c)) * GRP_XD + (x))                         \
-                                   : ((GRP_CY(c, yd) + (long)(y)) * GRP_XD + (x)))
-/* byte offset of the component-k cursor at the start of row i: base + i * bytes per row step */
-#define GRP_BASE(il, k, yd)                                                                          \
-    ((il) == MFGR_INTERLACE_PIXEL ? (long)(k)*GRP_CS : (il) == MFGR_INTERLACE_LINE ? (long)(k)*GRP_XD * GRP_CS : GRP_CY(k, yd) * GRP_XD * GRP_CS)
-#define GRP_STEP(il) ((il) == MFGR_INTERLACE_COMPONENT ? (long)GRP_XD * GRP_CS : (long)GRP_XD * GRP_NC * GRP_CS)
-/* bytes a cursor moves per pixel, and the extra move at the end of a row (the code's *_pixel_add, *_line_add) */
-#define GRP_PADD(il) ((il) == MFGR_INTERLACE_PIXEL ? (long)GRP_NC * GRP_CS : (long)GRP_CS)
-#define GRP_LADD(il) ((il) == MFGR_INTERLACE_LINE ? (long)(GRP_NC - 1) * GRP_XD * GRP_CS : 0L)
-#define GRP_AT(k, off_in, off_out)                                                                   \
-    (in_comp_ptr[k] == (const uint8 *)inbuf + (GRP_BASE(inil, k, dims[1]) + (off_in)) &&                                  \
-     out_comp_ptr[k] == (uint8 *)outbuf + (GRP_BASE(outil, k, dims[1]) + (off_out)))
-#define GRP_K1 (GRP_NC < 2 ? 0 : 1)
-#define GRP_K2 (GRP_NC < 3 ? 0 : 2)
-#define GRP_ALLK(M) (M(0) && (GRP_NC < 2 || M(GRP_K1)) && (GRP_NC < 3 || M(GRP_K2)))
-/* the property clause for the ghost component */
-#define GRP_EQ                                                                                       \
-    (((const uint8 *)outbuf)[GRP_IDX(outil, g_x, g_y, g_c, dims[1]) * GRP_CS + g_b] ==                                    \
-     ((const uint8 *)inbuf)[GRP_IDX(inil, g_x, g_y, g_c, dims[1]) * GRP_CS + g_b])
-#define GRP_TOTAL ((__CPROVER_size_t)dims[1] * (GRP_XD * GRP_NC * GRP_CS))
-/* loop 7 (rows) */
-#define GRP_AT7(kk) GRP_AT(kk, (long)i *GRP_STEP(inil), (long)i *GRP_STEP(outil))
-#define GRP_INV7 (0 <= i && i <= dims[1] && GRP_ALLK(GRP_AT7) && (g_y < i ==> GRP_EQ))
-/* loop 8 (pixels of row i) */
-#define GRP_AT8(kk) GRP_AT(kk, (long)i *GRP_STEP(inil) + (long)j * GRP_PADD(inil), (long)i * GRP_STEP(outil) + (long)j * GRP_PADD(outil))
-#define GRP_INV8 (0 <= j && j <= GRP_XD && GRP_ALLK(GRP_AT8) && ((g_y < i || (g_y == i && g_x < j)) ==> GRP_EQ))
-/* loop 9 (components of pixel (j,i)): cursors below k have already moved on */
-#define GRP_AT9(kk)                                                                                  \
-    GRP_AT(kk, (long)i *GRP_STEP(inil) + (long)(j + ((kk) < k ? 1 : 0)) * GRP_PADD(inil),                                 \
-           (long)i * GRP_STEP(outil) + (long)(j + ((kk) < k ? 1 : 0)) * GRP_PADD(outil))
-#define GRP_INV9                                                                                     \
-    (0 <= k && k <= GRP_NC && GRP_ALLK(GRP_AT9) && ((g_y < i || (g_y == i && (g_x < j || (g_x == j && g_c < k)))) ==> GRP_EQ))
-/* loop 10 (end-of-row wrap) */
-#define GRP_AT10(kk)                                                                                 \
-    GRP_AT(kk, (long)i *GRP_STEP(inil) + (long)GRP_XD * GRP_PADD(inil) + ((kk) < k ? GRP_LADD(inil) : 0L),                \
-           (long)i * GRP_STEP(outil) + (long)GRP_XD * GRP_PADD(outil) + ((kk) < k ? GRP_LADD(outil) : 0L))
-#define GRP_INV10 (0 <= k && k <= GRP_NC && GRP_ALLK(GRP_AT10) && (g_y <= i ==> GRP_EQ))
+/* NOTE (proved variant, not achieved): the row/pixel/component loops of GRIil_convert keep their
+   cursors in two malloc'ed POINTER ARRAYS (in_comp_ptr[], out_comp_ptr[]) that every iteration
+   updates.  Loop contracts were written for all four loops (cursor k == base_k + i*rowstep +
+   j*pixelstep, ghost-component clause) with xdim/ncomp/size constants and ydim symbolic; base,
+   assigns and decreases obligations and the steps of the three outer loops were discharged, but
+   the step of the copy loop fails spuriously: after the loop-contract havoc of the pointer arrays
+   cbmc's symex has no value set for in_comp_ptr[k]/out_comp_ptr[k] (the invariant's `==` does not
+   restore it), so memcpy through them writes to a dummy `$object`.  dfcc also refuses to leave the
+   constant-trip inner loops to --unwind when the outer loop has a contract.  Hence bounded only. */
 int32 g_x, g_y, g_c, g_b;
 
 #include "mfgr.c"
@@ -86,15 +40,8 @@ int32 g_i;
     ((il) == MFGR_INTERLACE_PIXEL  ? IL_PIXEL_IDX(x, y, c, xd, yd, nc)                                \
      : (il) == MFGR_INTERLACE_LINE ? IL_LINE_IDX(x, y, c, xd, yd, nc)                                 \
                                    : IL_COMP_IDX(x, y, c, xd, yd, nc))
-#ifdef GRP_PROVED
-#undef IL_IDX
-#define IL_IDX(il, x, y, c, xd, yd, nc) GRP_IDX(il, x, y, c, yd)
-#define GR_MAXX GRP_XD
-#define GR_MAXY GRP_YMAX
-#else
 #define GR_MAXX GR_MAXDIM
 #define GR_MAXY GR_MAXDIM
-#endif
 #define IL_VALID(il) ((il) == MFGR_INTERLACE_PIXEL || (il) == MFGR_INTERLACE_LINE || (il) == MFGR_INTERLACE_COMPONENT)
 #define IL_TOTAL(dims, ncomp) ((dims)[0] * (dims)[1] * (ncomp)*g_csize)
 
@@ -219,34 +166,6 @@ h_GRIil_convert(void)
               "il_convert pixel->line, one column");
 #endif
     H4V_CANARY("GRIil_convert end");
-}
-
-/* proved variant: ydim symbolic up to GRP_YMAX, exact-size buffers, xdim/ncomp/size constants */
-void
-h_GRIil_convert_p(void)
-{
-    mk_ghosts();
-    H4V_ND(gr_interlace_t, inil);
-    H4V_ND(gr_interlace_t, outil);
-    H4V_ND(int32, ydim);
-    H4V_ND(int32, nt);
-#ifdef GR_INIL
-    H4V_ASSUME(inil == GR_INIL);
-#endif
-#ifdef GR_OUTIL
-    H4V_ASSUME(outil == GR_OUTIL);
-#endif
-    H4V_ASSUME(ydim >= 1 && ydim <= GRP_YMAX);
-    g_csize = GRP_CS;
-    int32 dims[2];
-    dims[0]     = GRP_XD;
-    dims[1]     = ydim;
-    int32 total = ydim * (GRP_XD * GRP_NC * GRP_CS);
-    H4V_ND_BUF(uint8, pin, total, GR_CAP);
-    H4V_ND_BUF(uint8, pout, total, GR_CAP);
-    int r = GRIil_convert(pin, inil, pout, outil, dims, GRP_NC, nt);
-    H4V_COVER(r == SUCCEED && ydim > 100 && inil != outil, "il_convert proved variant, many rows");
-    H4V_CANARY("GRIil_convert_p end");
 }
 
 /* convert(B->A) after convert(A->B) is the identity (real code twice, harness-level) */
